@@ -82,6 +82,11 @@ fn build_fileset(ctx: &Ctx, acc: &mut Acc, n_gen: u64) -> FileSet {
             }
         }
     }
+    // deeply nested files: a recursion guard or depth counter that leaks must not affect the files analysed afterwards
+    for (n, t) in crate::deep::deep_texts().into_iter().filter(|(n, _)| n.ends_with(":70") || n.ends_with(":150")).take(14) {
+        names.push(format!("deep:{}", n));
+        texts.push(t);
+    }
     // same-length siblings: byte-preserving edits that change findings (a cache keyed by anything but the content must not confuse them)
     let edits: [(&str, &str); 8] = [(">=", "> "), ("<=", "< "), ("&&", "||"), (" * 2", " * 3"), (" / 4", " / 5"), ("++", "--"), ("== address(0)", "== address(1)"), ("transfer(", "transfeR(")];
     let n0 = texts.len();
